@@ -596,6 +596,12 @@ def build_pgcat(timeout=1500):
     return rc == 0 and os.path.exists(PGCAT_BIN), out
 
 
+def setup_extra():
+    """setup.sh: pre-build the real binary"""
+    ok, out = build_pgcat(timeout=3000)
+    return ok
+
+
 class PgClient:
     """minimal PostgreSQL v3 client over a plain socket"""
     def __init__(self, port):
